@@ -240,6 +240,26 @@ Definition or_fwd c := mk2 (or_fwd_x c) (or_fwd_y c).
 Definition or_rev c := mk2 (or_rev_lon c) (or_rev_lat c).
 
 (* ------------------------------------------------------------------------------------------ *)
+(* Setters.  A projection value has no state besides its configuration: every Set* method of the Go
+   types overwrites the fields it names (equirectangular/orthographic store derived values,
+   cos phi1 resp. sin/cos phi0, which the model recomputes from the configured angle) and
+   Forward/Reverse read nothing else.  A Go implementation that caches anything across calls must
+   keep this observable behaviour; the history class of the harness checks it. *)
+
+Definition er_set_meridian (c : er_cfg) (lon : R) : er_cfg :=          (* SetCentralMeridian *)
+  {| er_R := er_R c; er_lon0 := lon; er_lat1 := er_lat1 c |}.
+Definition er_set_parallels (c : er_cfg) (lat : R) : er_cfg :=         (* SetStandardParallels *)
+  {| er_R := er_R c; er_lon0 := er_lon0 c; er_lat1 := lat |}.
+Definition sn_set_meridian (c : sn_cfg) (lon : R) : sn_cfg := {| sn_R := sn_R c; sn_lon0 := lon |}.
+Definition lc_set_meridian (c : lc_cfg) (lon : R) : lc_cfg := {| lc_R := lc_R c; lc_lon0 := lon |}.
+Definition cn_set_origin (c : cn_cfg) (lon lat : R) : cn_cfg :=        (* SetOrigin *)
+  {| cn_R := cn_R c; cn_lon0 := lon; cn_lat0 := lat; cn_lat1 := cn_lat1 c; cn_lat2 := cn_lat2 c |}.
+Definition cn_set_parallels (c : cn_cfg) (l1 l2 : R) : cn_cfg :=       (* SetStandardParallels *)
+  {| cn_R := cn_R c; cn_lon0 := cn_lon0 c; cn_lat0 := cn_lat0 c; cn_lat1 := l1; cn_lat2 := l2 |}.
+Definition az_set_center (c : az_cfg) (lon lat : R) : az_cfg :=        (* SetCenter *)
+  {| az_R := az_R c; az_lon0 := lon; az_lat0 := lat |}.
+
+(* ------------------------------------------------------------------------------------------ *)
 (* Formulas of the pinned tree replaced by the repairs (subjects of the [_refuted] theorems). *)
 
 (* F12: proj_albers_equal_area_conic.go:Reverse had  rho = R * sqrt(sq(x)+sq(rho0-y)) *)
